@@ -544,10 +544,15 @@ impl Host {
 
 /// the legacy reading of a trigger is `StartLegacy`; the reference says `Start`
 fn normalise_triggers(events: &mut [Event]) {
-    for e in events.iter_mut() {
-        if let Event::StartLegacy(q) = e {
-            *e = Event::Start(q.clone());
+    fn norm(e: &mut Event) {
+        match e {
+            Event::StartLegacy(q) => *e = Event::Start(q.clone()),
+            Event::Tagged(inner) => norm(inner),
+            _ => {}
         }
+    }
+    for e in events.iter_mut() {
+        norm(e);
     }
 }
 
